@@ -241,7 +241,7 @@ class SuitBchar(SuitObject):
     def __init__(self, value: None | str) -> None:
         """Initialize object."""
         if value is not None:
-            if (not isinstance(value, str)) or (len(value) != 1):
+            if (not isinstance(value, str)) or (len(value) != 1) or (len(value.encode()) != 1):
                 raise ValueError(f"Unable to create single-byte type from: {value}")
         super().__init__(value)
 
